@@ -1,7 +1,7 @@
 """R-FIELDS-COVER and field-pairing rules (types, name section, custom sections, struct→struct copies)."""
 import re
 
-from vlib.facts import walk, peel, place_path, pat_alternatives, CheckError, diverges
+from vlib.facts import walk, peel, place_path, pat_alternatives, pat_variants, every_iteration, CheckError, diverges
 from vlib.report import RuleResult
 
 TYPES = "ir::module::module_types::Types"
@@ -219,6 +219,34 @@ def struct_copy_pairing(F):
             if not ok:
                 r.violate("%s | %s.%s←%s" % (ei["path"], s["adt"].split("::")[-1], fname, g["name"]), F.loc(ei, s),
                           "%s.%s is filled from %s.%s (expected .%s)" % (s["adt"].split("::")[-1], fname, src_ty.split("::")[-1], g["name"], want))
+    # a destination field filled with a constant although the source struct (the one the sibling fields are copied from)
+    # has a field of that name: the attribute is silently reset on re-encoding
+    for s_ in walk(ei["body"]):
+        if s_.get("k") != "Struct" or "rest" in s_ or not (s_.get("adt") or "").startswith("wasm_encoder::"):
+            continue
+        srcs = {}
+        for fname, val in s_["fields"]:
+            for x in walk(val):
+                if x.get("k") == "Field" and not x["name"].isdigit():
+                    st = x.get("base_ty", "").replace("&mut ", "").replace("&", "").split("<")[0]
+                    if st in F.adts and st.startswith("wasmparser::"):
+                        srcs[st] = srcs.get(st, 0) + 1
+                    break
+        if not srcs:
+            continue
+        src_ty = max(srcs, key=srcs.get)
+        if srcs[src_ty] < 2:
+            continue
+        src_fields = {f["name"] for v in F.adts[src_ty]["variants"] for f in v["fields"]}
+        for fname, val in s_["fields"]:
+            v = peel(val)
+            const = v.get("k") == "Lit" or (v.get("k") == "Path" and v.get("res", {}).get("variant") == "None")
+            want = ALIAS.get(fname, fname)
+            if const and (want in src_fields or fname in src_fields):
+                n += 1
+                r.ob(False, {"dest": "%s.%s" % (s_["adt"].split("::")[-1], fname), "constant": True})
+                r.violate("%s | %s.%s constant" % (ei["path"], s_["adt"].split("::")[-1], fname), F.loc(ei, s_),
+                          "%s.%s is hard-coded although %s has a `%s` field that the sibling fields are copied from: the attribute is lost on re-encoding" % (s_["adt"].split("::")[-1], fname, src_ty.split("::")[-1], want if want in src_fields else fname))
     r.count("copied_fields", n)
     return r
 
@@ -291,7 +319,36 @@ def custom_sections(F):
             if not ok:
                 r.violate("%s | push shape" % pi["path"], F.loc(pi, c), "custom section is not stored as (reader.name(), reader.data())")
     r.count("parse_pushes", pushes)
+    # every custom-section kind except the name section is stored, unconditionally
+    KC = "wasmparser::KnownCustom"
+    for m in walk(pi["body"]):
+        if m.get("k") == "Match" and (m.get("scrut_ty") or "").replace("&", "").split("<")[0] == KC:
+            for arm in m["arms"]:
+                vs = {v for a_, v in pat_variants(arm["pat"])[0] if v}
+                wild = pat_variants(arm["pat"])[1]
+                if vs == {"Name"}:
+                    continue
+                ps = [c for c in walk(arm["body"]) if c.get("k") == "MethodCall" and c["method"] == "push" and (place_path(c["recv"]) or "") == "custom_sections"]
+                okp = bool(ps) and all(every_iteration(arm["body"], c)[0] for c in ps)
+                label = "+".join(sorted(vs)) or ("_" if wild else "?")
+                r.ob(okp, {"custom kind": label, "stored_unconditionally": okp})
+                if not okp:
+                    why = "is not stored" if not ps else "is stored only %s" % every_iteration(arm["body"], ps[0])[1]
+                    r.violate("%s | custom kind %s" % (pi["path"], label), F.loc(pi, arm["body"]), "a custom section of kind %s %s: it disappears from the module without any edit" % (label, why))
     ei = F.one_fn(name="encode_internal", self_adt="Module")
+    # emission: every stored section reaches module.section(..) on every iteration of the loop
+    for m in walk(ei["body"]):
+        if m.get("k") == "Match" and m.get("src") == "ForLoopDesugar" and any((place_path(x.get("recv", {})) or "") == "self.custom_sections" for x in walk(m["scrut"]) if x.get("k") == "MethodCall"):
+            for lp in walk(m["arms"][0]["body"]):
+                if lp.get("k") == "Match" and lp is not m:
+                    for arm in lp["arms"]:
+                        if arm["pat"].get("variant") == "Some":
+                            sinks = [c for c in walk(arm["body"]) if c.get("k") == "MethodCall" and c["method"] == "section"]
+                            oks = bool(sinks) and every_iteration(arm["body"], sinks[0])[0]
+                            r.ob(oks, {"custom emission": "every stored section is written", "ok": oks})
+                            if not oks:
+                                r.violate("%s | custom emission skipped" % ei["path"], F.loc(ei, arm["body"]), "a stored custom section is written %s: some sections present in the IR are missing from the encoded module" % (every_iteration(arm["body"], sinks[0])[1] if sinks else "never"))
+                    break
     okE = False
     for m in walk(ei["body"]):
         if m.get("k") == "Match" and m.get("src") == "ForLoopDesugar":
